@@ -15,6 +15,10 @@ import FordModel.Lemmas.Scope
 import FordModel.Lemmas.ScopeUse
 import FordModel.ScopeBlock
 import FordModel.Lemmas.ScopeBlock
+import FordModel.ScopeBind
+import FordModel.Lemmas.ScopeBind
+import FordModel.ScopeSub
+import FordModel.Lemmas.ScopeSub
 import FordModel.Generated.C07
 namespace Ford.C07
 open Ford Ford.Scope
@@ -333,6 +337,187 @@ theorem block_type_leak_witness :
 example : (wBlockType.all fun x => noBlockUse x.2) = true ∧ (wBlockUse.all fun x => noBlockUse x.2) = false := by
   decide
 
+/-! ### local procedure-like entities: dummy procedures, interface bodies
+
+  A dummy procedure declared by an interface body, and an interface body inside a generic
+  interface, are entities of the scope that contains the interface block: `FortranCodeUnit._cleanup`
+  enters them into `all_procs` (model: a `.pr` declaration), and `FortranProcedure._cleanup`, which
+  turns the interface body of a dummy procedure into the argument object, leaves that entry alone. -/
+
+/-- **local_entity_shadows_host.**  Whatever the frame of a unit - its own declarations (nested
+    procedures, interface bodies, dummy procedures declared by an interface body, generic
+    interfaces) and its USE statements - has under a name decides every procedure reference of
+    that name in the unit, whatever the host's table contains under it (repaired merge order). -/
+theorem local_entity_shadows_host (env : ModEnv) (hostP a t : Table) (n : Str) (e : Ent) (f : Bool)
+    (uses : List Use) (decls : List Decl) (slots : List Slot) (kids : Kids) (i : Nat) (ph : Phase) (r : Str) (x : Ent)
+    (h : tget (frameOf env (.mk n e f uses decls slots kids)).p (lower r) = some x) :
+    lookupSlot (unitTabs repaired env hostP a t uses decls kids) ⟨i, .pr, ph, r⟩ = some x ∧
+      lookupSlot (unitTabs repaired env hostP a t uses decls kids) ⟨i, .pa, ph, r⟩ = some x := by
+  have key : tget (unitTabs repaired env hostP a t uses decls kids).p (lower r) = some x := by
+    simp only [unitTabs, repaired, Bool.false_eq_true, ↓reduceIte, applyUses_append, tget_append]
+    simp only [frameOf] at h
+    rw [h]
+  simp [lookupSlot, key]
+
+/-- module m0 contains subroutine pa (1) and subroutine pb(pa) (2) whose dummy procedure pa (3) is
+    declared by an interface body; `procedure(pa)` is referenced in pb (slot 0), in pb's internal
+    procedure pc (slot 1) and in pb's sibling pd (slot 2). -/
+def wDummy : Scope :=
+  .mk ['m','0'] 0 false [] [] []
+    (.cons (.mk ['p','a'] 1 false [] [] [] .nil)
+      (.cons (.mk ['p','b'] 2 false [] [⟨.pr, ['P','A'], 3⟩] [⟨0, .pa, .late, ['p','a']⟩]
+        (.cons (.mk ['p','c'] 4 false [] [] [⟨1, .pa, .late, ['P','a']⟩] .nil) .nil))
+        (.cons (.mk ['p','d'] 5 false [] [] [⟨2, .pa, .late, ['p','a']⟩] .nil) .nil)))
+
+/-- **dummy_procedure_shadows_host_witness**: inside pb and its internal procedure the name denotes
+    the dummy procedure (3), in the sibling the module procedure (1); model (either merge order
+    would differ: see `inner_shadows_host_witness`) = specification.  Without the table entry of the
+    dummy procedure both references would fall through to the host's procedure. -/
+theorem dummy_procedure_shadows_host_witness :
+    (corrUnit repaired [] wDummy).map (·.2) = [some 3, some 3, some 1] ∧
+      (specScope [] [] wDummy).map (·.2) = [some 3, some 3, some 1] ∧
+      (corrUnit asIs [] wDummy).map (·.2) = [some 1, some 1, some 1] := by decide
+
+/-! ### type-bound procedures
+
+  `FortranBoundProcedure.correlate` looks the names of a binding statement up in a table that
+  depends on the kind of the statement (`bindTableOf`): generic -> the bindings of the type,
+  specific -> the procedures of the scope, deferred -> nowhere. -/
+
+/-- **deferred_binding_stays_text.**  The name of a deferred binding is looked up in no table: its
+    slot keeps the name whatever procedures of that name the scope, its hosts or the used modules
+    have - in the model and in the specification (a deferred binding has no implementation in
+    its type; a binding name is local to the type). -/
+theorem deferred_binding_stays_text (tb : Tabs) (ch : List Frame) (i : Nat) (ph : Phase) (n : Str) :
+    bindTableOf false true = .nowhere ∧
+      lookupSlot tb ⟨i, bindSlotKind true, ph, n⟩ = none ∧
+      specLookup ch ⟨i, bindSlotKind true, ph, n⟩ = none := by
+  simp [bindTableOf, bindSlotKind, lookupSlot, specLookup]
+
+/-- the other two kinds: the target of a specific binding is a procedure of the scope (slot kind
+    `pr`, resolved by `corr`), the specifics of a generic binding are bindings of the type -/
+theorem binding_tables (d : Bool) :
+    bindTableOf false false = .scopeProcs ∧ bindSlotKind false = .pr ∧ bindTableOf true d = .typeBindings := by
+  cases d <;> simp [bindTableOf, bindSlotKind]
+
+/-- **generic_specifics_correct.**  When an inherited generic binding has a list of specifics of
+    its own (`shared = false`), then for every sequence of derived types correlated parents first
+    - any depth of extension, any overriding, any reuse of binding names, whatever is correlated
+    before or after - every specific of every generic binding holds exactly what Fortran
+    designates: the type's own binding of that name, else the binding inherited from the nearest
+    ancestor that declares one, else the name stays text.  The only hypothesis is that the list
+    cells are distinct (`Nodup` of the slot ids). -/
+theorem generic_specifics_correct (pre : List TypeRec) (r : TypeRec) (post : List TypeRec) (c : Nat × Str)
+    (hc : c ∈ r.gens) (nd : (recIds (pre ++ r :: post)).Nodup) :
+    cellGet (runTypes false [] [] (pre ++ r :: post)) c.1 = specGeneric pre.reverse r c.2 := by
+  have := runTypes_spec pre r post c hc [] [] [] StoreOK.nil (fun _ _ => rfl) nd
+  simpa using this
+
+/-- **generic_specifics_partial** (code as found: the inherited copy shares the parent's list):
+    without type extension - no type of the sequence has a resolved parent type - sharing is
+    unobservable: every cell holds what it holds with lists of their own. -/
+theorem generic_specifics_partial (rs : List TypeRec) (h : ∀ r ∈ rs, r.parent = none) :
+    runTypes true [] [] rs = runTypes false [] [] rs :=
+  runTypes_noParent true rs [] [] h
+
+/-- type ta (1) has the binding pa (10) and `generic :: g => pa` (cell 0); its extension tb (2)
+    overrides pa (11); tc (3) extends tb and has `generic :: h => pa` (cell 1). -/
+def wGeneric : List TypeRec :=
+  [⟨1, none, [(['p','a'], 10)], [(0, ['P','a'])]⟩, ⟨2, some 1, [(['p','a'], 11)], []⟩,
+   ⟨3, some 2, [], [(1, ['p','a'])]⟩]
+
+/-- **generic_specifics_witness**: the code as found leaves tb's overriding binding (11) in the
+    list of ta's generic binding, where Fortran designates ta's own binding (10); tc's generic
+    binding names the inherited binding of tb (11) in both variants; with lists of their own the
+    model equals the specification. -/
+theorem generic_specifics_witness :
+    genericRes true wGeneric = [(0, some 11), (1, some 11)] ∧
+      genericRes false wGeneric = [(0, some 10), (1, some 11)] ∧
+      specGenericRes [] wGeneric = [(0, some 10), (1, some 11)] := by decide
+
+/-! ### submodules
+
+  A submodule is a scope nested in its parent (the submodule `parent` of the ancestor module in
+  `submodule (anc:parent) name`, else the ancestor module); a separate module procedure implements
+  the module procedure interface it accesses from an ancestor (FordModel/ScopeSub.lean). -/
+
+/-- **submodule_resolution_correct.**  When a submodule's local declarations are merged OVER the
+    tables of its parent (`ancOverLocal = false`) and these represent the chain `ch` of the parent's
+    frames, then every reference slot of the submodule and of all scopes nested in it holds what the
+    specification designates with `ch` as host chain, every separate module procedure is paired
+    with the interface the innermost host frame has under its name (else its own), and the tables the submodule
+    leaves to ITS submodules represent the chain extended by its own frame - so the statement
+    carries over to submodules of any depth. -/
+theorem submodule_resolution_correct (env : ModEnv) (host : Tabs) (ch : List Frame)
+    (h : Rep host.p host.a host.t ch) (s : Scope) (ok : treeOK env ch s = true)
+    (pairable : List Ent) (pairs : List (Nat × Str)) :
+    (corrSub repaired false env host s).2 = specScope env ch s ∧
+      pairSlots pairable host (scopeDecls s) (scopeKids s) pairs =
+        specPairs pairable ch (localProcs (scopeDecls s) (scopeKids s)) pairs ∧
+      Rep (corrSub repaired false env host s).1.p (corrSub repaired false env host s).1.a
+        (corrSub repaired false env host s).1.t (frameOf env s :: ch) :=
+  ⟨(corrSub_repaired env host ch h s ok).1, pairSlots_spec pairable host ch h _ _ pairs,
+   (corrSub_repaired env host ch h s ok).2⟩
+
+/-- **submodule_local_shadows_partial** (code as found: `all_X.update(parent.all_X)`): overwriting
+    the local declarations with the parent's and merging them over the parent's answer every
+    lookup alike as long as no name the submodule declares is a key of the parent's table of the
+    same kind (table level, like `inner_shadows_host_partial`). -/
+theorem submodule_local_shadows_partial (env : ModEnv) (host : Tabs) (uses : List Use) (decls : List Decl) (kids : Kids)
+    (hp : ∀ k ∈ localProcs decls kids, tget host.p k.1 = none)
+    (ha : ∀ k ∈ declsOf .ab decls, tget host.a k.1 = none)
+    (ht : ∀ k ∈ declsOf .ty decls, tget host.t k.1 = none) (s : Slot) :
+    lookupSlot (subTabs true env host uses decls kids) s = lookupSlot (subTabs false env host uses decls kids) s := by
+  rw [subTabs_split true, subTabs_split false]
+  simp only [lookupSlot, ↓reduceIte, Bool.false_eq_true, tget_append (applyUses env uses ⟨[], [], []⟩).p,
+    tget_append (applyUses env uses ⟨[], [], []⟩).a, tget_append (applyUses env uses ⟨[], [], []⟩).t,
+    tget_append_comm _ _ hp, tget_append_comm _ _ ha, tget_append_comm _ _ ht]
+
+/-- module m0 declares type ta (1) and subroutine pc (2); its submodule s1 (10) declares its own
+    ta (3) and pc (4) and refers to `type(ta)` (slot 0) and `procedure(pc)` (slot 1); slots 20, 21
+    are its references to the ancestor module and the parent submodule. -/
+def wSubLocal : List (UKind × Scope) :=
+  [(.mod, .mk ['m','0'] 0 false [] [⟨.ty, ['t','a'], 1⟩] [] (.cons (.mk ['p','c'] 2 false [] [] [] .nil) .nil)),
+   (.sub ⟨['M','0'], none, 20, 21, []⟩,
+     .mk ['s','1'] 10 false [] [⟨.ty, ['T','a'], 3⟩]
+       [⟨0, .ty, .late, ['t','a']⟩, ⟨1, .pa, .late, ['p','c']⟩] (.cons (.mk ['p','c'] 4 false [] [] [] .nil) .nil))]
+
+/-- **submodule_local_shadowed_witness**: the code as found links both references to the ancestor
+    module's entities (1, 2) where Fortran designates the submodule's own (3, 4); merged the other
+    way round the model equals the specification. -/
+theorem submodule_local_shadowed_witness :
+    (corrProjectS repaired SVariant.asFound [] [10] PState.empty wSubLocal).map (·.2) = [some 0, none, some 1, some 2] ∧
+      (corrProjectS repaired SVariant.repaired [] [10] PState.empty wSubLocal).map (·.2) = [some 0, none, some 3, some 4] ∧
+      (specProjectS [] SpecState.empty wSubLocal).map (·.2) = [some 0, none, some 3, some 4] := by decide
+
+/-- modules m0 (type ta = 1) and m1 each have a submodule s1 (10 resp. 11); `submodule (m1:s1) s3`
+    (12) refers to `type(ta)` (slot 0); slots 20-25 are the ancestor / parent references. -/
+def wSubParent : List (UKind × Scope) :=
+  [(.mod, .mk ['m','0'] 0 false [] [⟨.ty, ['t','a'], 1⟩] [] .nil),
+   (.mod, .mk ['m','1'] 2 false [] [] [] .nil),
+   (.sub ⟨['m','0'], none, 20, 21, []⟩, .mk ['s','1'] 10 false [] [] [] .nil),
+   (.sub ⟨['m','1'], none, 22, 23, []⟩, .mk ['s','1'] 11 false [] [] [] .nil),
+   (.sub ⟨['m','1'], some ['S','1'], 24, 25, []⟩, .mk ['s','3'] 12 false [] [] [⟨0, .ty, .late, ['t','a']⟩] .nil)]
+
+/-- **submodule_parent_by_name_witness**: looking the parent up by its name alone in the project's
+    list (here m0's s1 comes first) makes m0's submodule the parent of `m1:s1`'s child and links
+    `type(ta)` to m0's type, although neither m1 nor its s1 has a `ta`; looked up by ancestor
+    module and name, the parent is m1's s1 (11) and the reference stays text = specification. -/
+theorem submodule_parent_by_name_witness :
+    ((corrProjectS repaired ⟨false, true⟩ [] [10, 11, 12] PState.empty wSubParent).map (·.2)).drop 4 =
+        [some 2, some 10, some 1] ∧
+      ((corrProjectS repaired ⟨false, false⟩ [] [10, 11, 12] PState.empty wSubParent).map (·.2)).drop 4 =
+        [some 2, some 11, none] ∧
+      ((specProjectS [] SpecState.empty wSubParent).map (·.2)).drop 4 = [some 2, some 11, none] := by decide
+
+/-- **projects_without_submodules**: on a project that has no submodule the project-level model with
+    submodules is the model `corrProject` the theorems above speak about (every variant of the two
+    submodule switches). -/
+theorem projects_without_submodules (v : Variant) (sv : SVariant) (pairable order : List Ent)
+    (us : List (UKind × Scope)) (h : ∀ u ∈ us, kindIsSub u.1 = false) :
+    corrProjectS v sv pairable order PState.empty us = corrProject v [] (us.map fun u => (kindIsMod u.1, u.2)) :=
+  corrProjectS_plain v sv pairable order us h PState.empty
+
 /-! ### tie to the source: structure of `FortranCodeUnit.correlate` (generated) -/
 
 /-- the recursion visits functions, then subroutines, then (after the nested units)
@@ -400,5 +585,101 @@ theorem blocks_invisible_generated (s : BScope) :
   have ht : (regOfTable Ford.C07Gen.blockGuards Ford.C07Gen.useBranchBlockAware).ty = false := by decide
   have hi : (regOfTable Ford.C07Gen.blockGuards Ford.C07Gen.useBranchBlockAware).ifc = false := by decide
   exact ⟨fun h => flatten_noBlockUse _ ht hi s h, fun hu => flatten_none _ hu ht hi s⟩
+
+/-- `FortranBoundProcedure.correlate` (regenerated): the entries of `bindings` are written in two
+    places only - for a GENERIC binding from the dict of the type's bindings by name, for a binding
+    that is NOT DEFERRED from `all_procs` - so the name of a deferred binding is looked up nowhere
+    (`bindTableOf`); the interface of a binding is looked up in `all_procs`, then in
+    `all_absinterfaces` (slot kind `pa`). -/
+theorem bound_procedure_lookup_generated :
+    Ford.C07Gen.boundBindingWrites =
+        [("self.generic", "parent_boundprocs[binding_name]"),
+         ("not (self.generic) and not self.deferred", "self.all_procs[self.bindings[i].lower()]")] ∧
+      Ford.C07Gen.boundLocalTables =
+        [("self.generic", "parent_boundprocs", "{proc.name.lower(): proc for proc in self.parent.boundprocs if proc}")] ∧
+      Ford.C07Gen.boundOtherWrites = [] ∧
+      Ford.C07Gen.boundProtoWrites =
+        [("self.proto and proto_lower in self.all_procs", "self.all_procs[proto_lower]"),
+         ("self.proto and not (proto_lower in self.all_procs) and proto_lower in self.parent.all_absinterfaces",
+          "self.parent.all_absinterfaces[proto_lower]")] := by decide
+
+/-- the name tables are bound or edited only where the model builds them (regenerated from both
+    source files): `_cleanup` of the code unit enters the nested procedures, every non-abstract
+    interface and the interface bodies of generic interfaces into `all_procs` (model: `localProcs`;
+    a module adds its procedure pointers) and NO other `_cleanup` touches a table - in particular
+    `FortranProcedure._cleanup`, which makes the interface body of a dummy procedure the argument
+    object, keeps its entry -; `correlate` of the code unit adds the local abstract interfaces and
+    types and the USE imports (the submodule inheritance: `submodule_lookup_generated`); reference
+    owners only alias their parent's tables. -/
+theorem name_tables_generated :
+    Ford.C07Gen.nameTableSites =
+        ["FortranCodeUnit._common_initialize", "FortranCodeUnit._cleanup", "FortranCodeUnit.correlate",
+         "FortranModule._cleanup", "FortranType.correlate", "FortranInterface.correlate",
+         "FortranFinalProc.correlate", "FortranBoundProcedure.correlate", "FortranBlockData.correlate"] ∧
+      Ford.C07Gen.cleanupTableWrites =
+        [("FortranCodeUnit._cleanup", "self.all_procs = {p.name.lower(): p for p in self.routines}"),
+         ("FortranCodeUnit._cleanup", "self.all_procs[interface.name.lower()] = interface"),
+         ("FortranCodeUnit._cleanup", "self.all_procs[proc.name.lower()] = proc"),
+         ("FortranModule._cleanup", "self.all_procs[var.name.lower()] = var")] ∧
+      Ford.C07Gen.correlateTableWrites =
+        ["self.all_absinterfaces[ai.name.lower()] = ai", "self.all_types[dt.name.lower()] = dt",
+         "self.all_procs.update(procs)", "self.all_absinterfaces.update(absints)", "self.all_types.update(types)"] := by
+  decide
+
+/-- `FortranType.correlate` (regenerated): `boundprocs` becomes the inherited bindings followed by
+    the own ones, and an inherited generic binding is a `copy.copy` of the parent's object that
+    either keeps the parent's list of specifics (code as found, model `shared = true`) or is given
+    a list of its own right after the copy (`shared = false`) - the two shapes the model has. -/
+theorem inherited_generic_generated :
+    Ford.C07Gen.boundprocsBuild = ["inherited + self.boundprocs"] ∧
+      (Ford.C07Gen.inheritedGenericStmts =
+          ["gen = copy.copy(bp)", "gen.parent = self", "inherited.append(gen)",
+           "gen = copy.copy(bp)", "gen.parent = self", "inherited_generic.append(gen)"] ∨
+        Ford.C07Gen.inheritedGenericStmts =
+          ["gen = copy.copy(bp)", "gen.bindings = list(bp.bindings)", "gen.parent = self", "inherited.append(gen)",
+           "gen = copy.copy(bp)", "gen.bindings = list(bp.bindings)", "gen.parent = self",
+           "inherited_generic.append(gen)"]) := by decide
+
+/-- submodules (regenerated): `find_used_modules` picks the parent submodule out of the project's
+    list either by its name alone (code as found, model `parentByName`) or by name and ancestor
+    module; `FortranCodeUnit.correlate` brings in the three tables of the parent submodule if it
+    was found, else of the ancestor module (model `hostTabs`) - by `update`, which overwrites the
+    local declarations (code as found, model `ancOverLocal`), or merged under them. -/
+theorem submodule_lookup_generated :
+    (Ford.C07Gen.submoduleParentTest = "parent_submodule_name == submod.name.lower()" ∨
+      Ford.C07Gen.submoduleParentTest =
+        "parent_submodule_name == submod.name.lower() and ancestor_module_name == _ancestor_name(submod)") ∧
+      (Ford.C07Gen.submoduleInherit =
+        [("isinstance(self, FortranSubmodule) and isinstance(self.parent_submodule, FortranSubmodule)",
+          "self.all_procs.update(self.parent_submodule.all_procs)"),
+         ("isinstance(self, FortranSubmodule) and isinstance(self.parent_submodule, FortranSubmodule)",
+          "self.all_absinterfaces.update(self.parent_submodule.all_absinterfaces)"),
+         ("isinstance(self, FortranSubmodule) and isinstance(self.parent_submodule, FortranSubmodule)",
+          "self.all_types.update(self.parent_submodule.all_types)"),
+         ("isinstance(self, FortranSubmodule) and not (isinstance(self.parent_submodule, FortranSubmodule)) and isinstance(self.ancestor_module, FortranModule)",
+          "self.all_procs.update(self.ancestor_module.all_procs)"),
+         ("isinstance(self, FortranSubmodule) and not (isinstance(self.parent_submodule, FortranSubmodule)) and isinstance(self.ancestor_module, FortranModule)",
+          "self.all_absinterfaces.update(self.ancestor_module.all_absinterfaces)"),
+         ("isinstance(self, FortranSubmodule) and not (isinstance(self.parent_submodule, FortranSubmodule)) and isinstance(self.ancestor_module, FortranModule)",
+          "self.all_types.update(self.ancestor_module.all_types)")] ∨
+       Ford.C07Gen.submoduleInherit =
+        [("isinstance(self, FortranSubmodule) and isinstance(self.parent_submodule, FortranSubmodule)",
+          "submodule_host = self.parent_submodule"),
+         ("isinstance(self, FortranSubmodule) and not (isinstance(self.parent_submodule, FortranSubmodule)) and isinstance(self.ancestor_module, FortranModule)",
+          "submodule_host = self.ancestor_module"),
+         ("submodule_host is not None", "self.all_procs = {**submodule_host.all_procs, **self.all_procs}"),
+         ("submodule_host is not None",
+          "self.all_absinterfaces = {**submodule_host.all_absinterfaces, **self.all_absinterfaces}"),
+         ("submodule_host is not None", "self.all_types = {**submodule_host.all_types, **self.all_types}")]) := by
+  decide
+
+/-- the tables each reference owner consults (regenerated): a variable `all_types` for
+    type(...)/class(...), `all_absinterfaces` and `all_procs` for procedure(...); a finaliser, the
+    specific procedures of a generic interface and the constructor `all_procs` only. -/
+theorem slot_lookups_generated :
+    Ford.C07Gen.slotLookups.lookup "FortranVariable" = some ["all_types", "all_absinterfaces", "all_procs"] ∧
+      (Ford.C07Gen.slotLookups.lookup "FortranFinalProc").map (·.eraseDups) = some ["all_procs"] ∧
+      (Ford.C07Gen.slotLookups.lookup "FortranBoundProcedure").map (·.eraseDups) = some ["all_procs", "all_absinterfaces"] := by
+  decide
 
 end Ford.C07
